@@ -1,6 +1,6 @@
 (* Extraction of the C06 models (ExtrOcamlBasic only; numbers stay Coq's positive/Z datatypes). *)
 From Coq Require Extraction ExtrOcamlBasic.
-From Verif Require Import CallConv.FuncDetailModel CallConv.ShuffleModel CallConv.Abi CallConv.AbiLink CallConv.ShuffleBytesModel CallConv.SolverModel CallConv.SolverProofs.
+From Verif Require Import CallConv.FuncDetailModel CallConv.ShuffleModel CallConv.Abi CallConv.AbiLink CallConv.ShuffleBytesModel CallConv.SolverModel CallConv.SolverProofs CallConv.SolverFullModel CallConv.DecodeModel.
 Extraction Blacklist List String Int.
 Extraction "callconv.ml" FuncDetailModel.func_detail_init FuncDetailModel.used_regs FuncDetailModel.size_of FuncDetailModel.mask_of
   FuncDetailModel.order_at FuncDetailModel.init_call_conv
@@ -9,4 +9,4 @@ Extraction "callconv.ml" FuncDetailModel.func_detail_init FuncDetailModel.used_r
   FuncDetailModel.F_CalleePops FuncDetailModel.F_IndirectVec FuncDetailModel.F_FloatsByVec FuncDetailModel.F_VecStackIfVA
   FuncDetailModel.F_MmxByGp FuncDetailModel.F_MmxByXmm FuncDetailModel.F_VarArgCompat FuncDetailModel.rt_group
   AbiLink.monitor AbiLink.abi_of_env Abi.abi_spec Abi.abi_guard
-  SolverProofs.wf_inputb SolverModel.solve SolverModel.init_var SolverModel.move_of ShuffleBytesModel.validate_bytes ShuffleModel.validate ShuffleModel.exec ShuffleModel.sym_exec ShuffleModel.alookup ShuffleModel.check_move ShuffleModel.mem_ranges_ok.
+  DecodeModel.decode SolverFullModel.fsolve SolverFullModel.finit SolverFullModel.fmove_of SolverFullModel.fwf_inputb SolverProofs.wf_inputb SolverModel.solve SolverModel.init_var SolverModel.move_of ShuffleBytesModel.validate_bytes ShuffleModel.validate ShuffleModel.exec ShuffleModel.sym_exec ShuffleModel.alookup ShuffleModel.check_move ShuffleModel.mem_ranges_ok.
